@@ -40,6 +40,7 @@ Outcomes(S, Dk, a) ==
       [] a.act = "Release"      -> D!ReleaseOut(S, a.m, a.a)
       [] a.act = "Tick"         -> D!TickOut(S)
       [] a.act = "Expire"       -> D!ExpireOut(S, a.a)
+      [] a.act = "BlockEnd"     -> D!BlockEndOut(S, a.a)
       [] a.act = "AddStatic"    -> D!AddStaticOut(S, a.m, a.a, a.h)
       [] a.act = "UpdateStatic" -> D!UpdateStaticOut(S, a.m, a.a, a.h)
       [] a.act = "RemoveStatic" -> D!RemoveStatic4Out(S, a.m, a.a)
